@@ -116,6 +116,16 @@ reg("C04",
     "trait-availability probes vs reference model + recorder header monitor", "DESIGN.md §4 C04")
 
 
+reg("C05",
+    "Exploration by runtime monitoring: random concrete-dependency fns (type shapes, by-ref with elided/explicit lifetime, by-value, "
+    "sync/async, owned/borrowed returns) are compiled and run; the trace monitor in the fn body shows which object it received; calls on "
+    "C, Impl<C> and Impl<App> (hand-written adoption) must reach the fn exactly once with &C (address and type) and return what the fn "
+    "returns on &C; availability probes cover Impl<X> for an X without the trait; the recorder shows the nested entrait attribute and "
+    "that the generated trait was entraited exactly once.",
+    "A dependency that is itself a reference is a pinned known finding (K6).",
+    "runtime trace monitor + differential twin + availability probes + recorder", "DESIGN.md §4 C05")
+
+
 def manifest():
     hooks_commits = subprocess.run(["git", "-C", "/repo", "log", "--format=%H", "--grep=^verif hook"],
                                    stdout=subprocess.PIPE, text=True).stdout.split()
